@@ -416,7 +416,7 @@ pub fn ocgr(seed: u64, n: usize, maxlen: usize, dir: &str) {
     let mut rng = Rng::new(seed);
     for k in 1..=7usize {
         for norm in [true, false] {
-            let size = *rng.pick(&[1u64, (k * k) as u64, 16, 1 << 20]);
+            let size = *rng.pick(&[1u64, (k * k) as u64, 16, 1 << 20, 1 << 60, 3 << 50]);      // (size x 2^(k+1) passes 2^64 for the largest)
             // k = 2 raw: a large single batch on many threads
             let bigrun = k == 2 && !norm;
             let n = if bigrun { 400 } else { n };
